@@ -86,6 +86,9 @@ ShadowCase(x) ==
 (* taken; third shape: the shadow holds a jump whose target lies BEYOND the target of the branch.  *)
 Shadow2Cases == { <<"warm", k, br, st>> : k \in 0 .. 6, br \in {"beq", "j"}, st \in {Sw("t1", "a1", 48), Sb("t1", "a1", 33), Sh("t1", "a1", 50)} }
                 \cup { <<"far", k, br, Nop>> : k \in 0 .. 3, br \in {"bnez", "blt", "bgeu"} }
+                \* fifth shape: both operands of the branch are produced by the two instructions before it (the branch
+                \* waits in the dispatch queue) and the shadow starts with a jump / a link jump / another branch
+                \cup { <<"pend", k, br, sj>> : k \in 0 .. 3, br \in {"beq2", "bge2"}, sj \in {J(0), I("jal", "ra", "zero", "zero", 0, 0), B("beq", "zero", "zero", 0)} }
                 \* fourth shape: an instruction that raises an error if executed, right behind a taken transfer that
                 \* resolves at once, at every dispatch alignment (k fillers)
                 \cup { <<"trap", k, br, tr>> : k \in 0 .. 4, br \in {"beq", "j", "bnez1"},
@@ -95,20 +98,24 @@ Shadow2Case(x) ==
       \* warm: two loads occupy two cores, a dependent add waits for both, a store makes line 128 Modified in one L1
       pre == IF x[1] = "warm" THEN <<Lw("t0", "a0", 0), Lw("t2", "a1", 32), AddI("t2", "t0", "t2"), Sw("t1", "a1", 40)>> \o fill
              ELSE IF x[1] = "trap" THEN <<Li("t0", 1)>> \o fill
+             ELSE IF x[1] = "pend" THEN fill \o <<Li("t0", 7), Li("t1", 7)>>
              ELSE <<Lw("t0", "a0", 0)>> \o fill
       nb == Len(pre)                                     \* 0-based index of the branch
       br == CASE x[3] = "beq" -> B("beq", "zero", "zero", nb + 3) [] x[3] = "j" -> J(nb + 3)
               [] x[3] = "bnez" -> B("bnez", "t0", "zero", nb + 2) [] x[3] = "blt" -> B("blt", "t3", "t0", nb + 2)
               [] x[3] = "bgeu" -> B("bgeu", "t0", "t3", nb + 2)
               [] x[3] = "bnez1" -> B("bnez", "t0", "zero", nb + 3)
+              [] x[3] = "beq2" -> B("beq", "t0", "t1", nb + 2) [] x[3] = "bge2" -> B("bge", "t0", "t1", nb + 2)
       p == IF x[1] \in {"warm", "trap"}
            THEN pre \o <<br, x[4], Li("t2", 9), Addi("t3", "t3", 100), Addi("t1", "t3", 1), Nop>>
            \* far: branch -> join (nb+2); shadow jump -> far (nb+4); join: addi; j end; far: li t2,77; end: nop
+           ELSE IF x[1] = "pend"
+           THEN pre \o <<br, [x[4] EXCEPT !.tgt = nb + 4], Addi("t3", "t3", 100), J(nb + 5), Li("t2", 77), Nop, Nop>>
            ELSE pre \o <<br, J(nb + 4), Addi("t3", "t3", 100), J(nb + 5), Li("t2", 77), Nop, Nop>>
       r0 == Regs0(64, 128, 77, 5, 6, 0)
       fin == Final(p, r0, "ones", 256, 64)
       sh == IF x[1] \in {"warm", "trap"} THEN <<x[4], Li("t2", 9)>> ELSE <<Li("t2", 77)>>
-  IN CaseRec("Shadow2", p, r0, "ones", 256, fin, ShadowFocusRegs(sh) \cup {"t3"}, ShadowFocusAddrs(sh, 64, 128), Tags(p, fin), [taken |-> TRUE, shape |-> x[1]])
+  IN CaseRec("Shadow2", p, r0, "ones", 256, fin, ShadowFocusRegs(sh) \cup {"t3"} \cup (IF x[1] = "pend" THEN {"ra"} ELSE {}), ShadowFocusAddrs(sh, 64, 128), Tags(p, fin), [taken |-> TRUE, shape |-> x[1]])
 
 (* ------------------------------- RegDep (C04) ------------------------------ *)
 RegDepIns == { Lw("t0", "a0", 0), Li("t0", 5), Addi("t0", "t0", 1), AddI("t1", "t0", "t0"), I("mv", "t0", "t1", "zero", 0, 0),
